@@ -1575,11 +1575,25 @@ func c17Tenants(rep *Report) {
 			tn := tenants[ti]
 			for src, want := range tn.expected {
 				rep.Evaluations++
-				got, gerr := c10RunSrc(src, expr.Env(tn.env), expr.Operator("+", "Add"), expr.Operator("==", "Eq"))
-				exp, eerr := c10RunSrc(want, expr.Env(tn.env))
+				run := func(s string, ops ...expr.Option) (out interface{}, err error) {
+					defer func() {
+						if r := recover(); r != nil {
+							err = fmt.Errorf("panic: %v", r)
+						}
+					}()
+					p, err := expr.Compile(s, ops...)
+					if err != nil {
+						return nil, err
+					}
+					return expr.Run(p, tn.env)
+				}
+				got, gerr := run(src, expr.Env(tn.env), expr.Operator("+", "Add"), expr.Operator("==", "Eq"))
+				exp, eerr := run(want, expr.Env(tn.env))
 				if eerr != nil {
+					rep.fail(Failure{Key: "C17-e2e-baseline", What: "the explicit-call form does not compile and run (tenant campaign)", Input: map[string]interface{}{"tenant": tn.name, "expr": want}, Got: eerr.Error()})
 					continue
 				}
+				rep.hist("tenant campaign: judged")
 				if gerr != nil || fmt.Sprintf("%#v", got) != fmt.Sprintf("%#v", exp) {
 					rep.fail(Failure{Key: "C17-result-differs", What: "operator form and explicit-call form evaluate differently (environments with the same member names and other signatures compiled in one process)",
 						Input: map[string]interface{}{"tenant": tn.name, "order": ord, "expr": src, "explicit_form": want},
